@@ -200,6 +200,20 @@ class WorldB(object):
         app.associations = bro.Worker.associations
         return app
 
+    def build_second_app(self, app_indices_per_worker):
+        """Another Bromelia object of the same process (same configuration file contents), never started:
+        whatever is registered on it belongs to it alone."""
+        import bromelia.bromelia as bro
+        d = tempfile.mkdtemp(prefix="verif-worldb-")
+        path = os.path.join(d, "config.yaml")
+        with open(path, "w") as f:
+            f.write(yaml_text(app_indices_per_worker))
+        try:
+            return bro.Bromelia(config_file=path)
+        finally:
+            os.unlink(path)
+            os.rmdir(d)
+
     def start(self):
         """What Bromelia._run / Worker.run do once connections are open."""
         th = self.world.threading
